@@ -131,6 +131,7 @@ class SimDisk:
         self.mark_count = 0
         self.die_at = None    # raise SoftDeath at this mark (1-based)
         self.renames = []     # (src, dst, log position of an open src)
+        self.readers = {}     # name -> weak references to open read handles
 
     def exists(self, name):
         return name in self.files or name in self.open_files
@@ -139,6 +140,22 @@ class SimDisk:
         if name in self.open_files:
             return bytes(self.open_files[name][0].buf)
         return self.files[name]
+
+    def live_readers(self, name):
+        """Read handles of ``name`` that are still open (not closed and not
+        garbage collected)."""
+        import gc
+        gc.collect()
+        alive = []
+        for ref in self.readers.get(name, []):
+            h = ref()
+            try:
+                if h is not None and bool(h):
+                    alive.append(ref)
+            except Exception:  # noqa: BLE001
+                pass
+        self.readers[name] = alive
+        return alive
 
     def mark(self, label):
         for name, (_, _, log) in self.open_files.items():
@@ -186,6 +203,12 @@ class H5Shim(types.ModuleType):
         disk = self._disk
         disk.sync_closed()
         name = str(name)
+        if mode in ("w", "a", "r+") and disk.live_readers(name):
+            # HDF5 refuses to truncate / reopen for writing a file that is
+            # still open (e.g. a reader object somebody keeps alive)
+            raise OSError(
+                "Unable to synchronously truncate a file which is already "
+                "open: " + name)
         if name in disk.open_files and mode not in ("x", "w-"):
             # HDF5 file locking: a file another writer holds cannot be opened
             raise OSError(
@@ -221,7 +244,10 @@ class H5Shim(types.ModuleType):
                     2, "Unable to synchronously open file (unable to open "
                        "file: No such file or directory)", name)
             fo = SimFile(disk.current_image(name), readonly=True)
-            return self._real.File(fo, "r", *a, **kw)
+            h = self._real.File(fo, "r", *a, **kw)
+            import weakref
+            disk.readers.setdefault(name, []).append(weakref.ref(h))
+            return h
         else:
             raise ValueError("Invalid mode; must be one of r, r+, w, w-, x, a")
         fo._h5_closed = lambda h=h: not bool(h)
@@ -329,19 +355,37 @@ class TempfileShim(types.ModuleType):
 
 
 def install(disk):
-    """Patch oqupy.process_tensor's seams; returns the real h5py module."""
+    """Patch the storage seams of every loaded oqupy module (process_tensor
+    has them today; a front end such as pt_tempo may grow its own ``os``)."""
+    import sys
     import h5py
-    import oqupy.process_tensor as ptm
-    ptm.h5py = H5Shim(disk, h5py)
-    ptm.os = OsShim(disk)
-    ptm.tempfile = TempfileShim(disk)
+    import oqupy.process_tensor  # noqa: F401
+    shims = {"h5py": (h5py, H5Shim(disk, h5py)),
+             "os": (_os, OsShim(disk)),
+             "tempfile": (_tempfile, TempfileShim(disk))}
+    for modname, mod in list(sys.modules.items()):
+        if not (modname == "oqupy" or modname.startswith("oqupy.")) \
+                or mod is None:
+            continue
+        for attr, (real, shim) in shims.items():
+            cur = getattr(mod, attr, None)
+            if cur is real or isinstance(cur, (H5Shim, OsShim,
+                                               TempfileShim)):
+                setattr(mod, attr, shim)
     return h5py
 
 
 def uninstall():
-    """Give oqupy.process_tensor its real h5py / os / tempfile back."""
+    """Give the oqupy modules their real h5py / os / tempfile back."""
+    import sys
     import h5py
-    import oqupy.process_tensor as ptm
-    ptm.h5py = h5py
-    ptm.os = _os
-    ptm.tempfile = _tempfile
+    for modname, mod in list(sys.modules.items()):
+        if not (modname == "oqupy" or modname.startswith("oqupy.")) \
+                or mod is None:
+            continue
+        if isinstance(getattr(mod, "h5py", None), H5Shim):
+            mod.h5py = h5py
+        if isinstance(getattr(mod, "os", None), OsShim):
+            mod.os = _os
+        if isinstance(getattr(mod, "tempfile", None), TempfileShim):
+            mod.tempfile = _tempfile
